@@ -251,20 +251,26 @@ pub fn build(idx: usize, sp: &Spec, th: Thresholds, timeout: u64, now: u64, rtts
         Stall::ProofFresh => c.last_ack_or_rtt_sample_ms = now,
         Stall::ProofStale => c.last_ack_or_rtt_sample_ms = now.saturating_sub(100_000),
         Stall::LatchedStale | Stall::LatchedRecovering => {
+            // scripted on a two-link pool (the link + a healthy sibling), as in production,
+            // so the link also carries the `stall_gated` flag the previous select left on it
             let t = now - 5000;
             c.in_flight_packets = 40;
             c.last_received = Some(t);
             c.last_ack_or_rtt_sample_ms = t.saturating_sub(100_000);
-            let mut v = [c];
+            let mut sib = c.clone();
+            sib.conn_id = 999;
+            sib.in_flight_packets = 0;
+            sib.last_ack_or_rtt_sample_ms = 0;
+            let mut v = [c, sib.clone()];
             select_connection_idx(&mut v, None, t, &helper);
-            let [c2] = v;
+            let [c2, _] = v;
             c = c2;
             assert!(c.stall_latched(), "scripted latch history did not latch");
             if sp.stall == Stall::LatchedRecovering {
                 c.last_ack_or_rtt_sample_ms = now - 20;
-                let mut v = [c];
+                let mut v = [c, sib];
                 select_connection_idx(&mut v, None, now - 10, &helper);
-                let [c2] = v;
+                let [c2, _] = v;
                 c = c2;
                 c.last_ack_or_rtt_sample_ms = now;
             }
@@ -274,15 +280,20 @@ pub fn build(idx: usize, sp: &Spec, th: Thresholds, timeout: u64, now: u64, rtts
             c.in_flight_packets = 40;
             c.last_received = Some(t - 10_000);
             c.last_ack_or_rtt_sample_ms = t - 10;
-            let mut v = [c];
+            let mut sib = c.clone();
+            sib.conn_id = 999;
+            sib.in_flight_packets = 0;
+            sib.last_received = Some(t);
+            sib.last_ack_or_rtt_sample_ms = 0;
+            let mut v = [c, sib];
             select_connection_idx(&mut v, None, t, &helper);
-            let [c2] = v;
+            let [c2, _] = v;
             c = c2;
             assert!(c.verif_private().silence_pulled, "scripted silence history did not pull");
             c.last_ack_or_rtt_sample_ms = now;
         }
     }
-    c.stall_gated = false;
+    // `stall_gated` is left as that earlier select left it (stale): every select must recompute it
 
     // ---- lifecycle
     match sp.life {
